@@ -13,6 +13,20 @@ from ..index import u, call_name, call_attr, walk_local, FUNC_TYPES
 from ..util import assignments_to
 from . import shared
 
+# the same sites when the local that names the set is inlined into the loop header (a triaged name and the expression it is bound to are the same site)
+TRIAGE_INLINED = {
+    ('vermouth/gmx/itp.py', 'write_molecule_itp', 'set(pre_section_lines) | set(post_section_lines)'): 'remaining_sections',
+    ('vermouth/graph_utils.py', '_items_with_common_values', 'set(graph.nodes)'): 'nodes',
+    ('vermouth/ismags.py', 'ISMAGS._map_nodes', 'to_be_mapped - set(mapping.keys())'): 'left_to_map',
+    ('vermouth/map_parser.py', 'MappingDirector._resolve_atom_spec', '{name[1] for name in self.identifiers if name[0] == prefix}'): 'options',
+    ('vermouth/molecule.py', 'Molecule.edges_between', 'set_2 & set(self[node1])'): 'cross',
+    ('vermouth/molecule.py', 'Molecule.edges_between', 'set(n_bunch1)'): 'set_1',
+    ('vermouth/molecule.py', 'Molecule.same_nodes', 'set((key for key in self_node if key not in ignore_attr))'): 'self_keys',
+    ('vermouth/processors/do_mapping.py', 'do_mapping', 'uncovered_atoms - uncovered_hydrogens'): 'other_uncovered',
+    ('vermouth/processors/do_mapping.py', 'do_mapping', "{idx for idx in uncovered_atoms if molecule.nodes[idx].get('element', '') == 'H'}"): 'uncovered_hydrogens',
+    ('vermouth/processors/repair_graph.py', 'repair_graph', 'set(found.nodes) - set(match.values())'): 'extra',
+}
+
 SETOPS = (ast.BitOr, ast.BitAnd, ast.Sub, ast.BitXor)
 SET_ATTRS = {'citations', 'features'}            # attributes documented/initialised as sets of str
 INSENSITIVE_CALLS = {'any', 'all', 'sum', 'len', 'set', 'frozenset', 'sorted', 'min', 'max', 'Counter', 'collections.Counter'}
@@ -145,6 +159,13 @@ def auto_insensitive(module, kind, node):
             return False
         if node.body and all(set_sink(st) for st in node.body):
             return 'the loop only adds to a set'
+        # a search with a constant verdict: `for x in s: if cond(x): return False` .. `return True` -- which element is met first does not change the answer
+        def verdict(st):
+            return isinstance(st, ast.If) and not st.orelse and len(st.body) == 1 and isinstance(st.body[0], ast.Return) and \
+                isinstance(st.body[0].value, ast.Constant) and not any(isinstance(x, (ast.Call,)) and call_attr(x) in ('append', 'add', 'update', 'pop', 'remove', 'extend')
+                                                                       for x in ast.walk(st.test))
+        if node.body and all(verdict(st) for st in node.body) and len({repr(st.body[0].value.value) for st in node.body}) == 1:
+            return 'the loop only looks for an element that decides a constant answer'
     return None
 
 
@@ -167,6 +188,8 @@ def run(ck):
                 continue
             if kind.startswith('call sorted'):
                 key = key + ('sorted(key=len)',)
+            if key not in TRIAGE and key[:3] in TRIAGE_INLINED:
+                key = (key[0], key[1], TRIAGE_INLINED[key[:3]]) + key[3:]
             reason = TRIAGE.get(key)
             seen_keys.add(key)
             ck.ob('ORD-hash-order', where, reason is not None,
